@@ -107,9 +107,9 @@ def binop (host : Int) (o : String) (x y : V) : R :=
        | some (c1, c2) => liftE ((dtMinusDt c1 c2 a b).map V.ts) | none => .error .noMatch)
   | "+", .ts a, .ts b => liftE ((tsAdd a b).map V.ts)
   | "-", .ts a, .ts b => liftE ((tsSub a b).map V.ts)
-  | "*", .ts a, .num n => liftE ((tsMulNum a n).map V.ts)
-  | "*", .num n, .ts a => liftE ((tsMulNum a n).map V.ts)
-  | "/", .ts a, .num n => liftE ((tsDivNum a n).map V.ts)
+  | "*", .ts a, .num n => liftE ((tsMulNumF a n).map V.ts)
+  | "*", .num n, .ts a => liftE ((tsMulNumF a n).map V.ts)
+  | "/", .ts a, .num n => liftE ((tsDivNumF a n).map V.ts)
   | "/", .ts a, .ts b => liftE ((tsDivTsF a b).map V.fl)
   | _, _, _ => .error .noMatch
 
